@@ -209,14 +209,12 @@ Fixpoint protected_run (c : cfg) (now : Z) (i : N) (l : list ddata) : N :=
 (** protected_prefix_kept: the new delta and the leading protected old ones are retained, as far
     as the size rule lets them. *)
 Definition keeps_protected (sizes : list (N * N)) (pre post : rrdp) (cf : cfg) (now : Z) : bool :=
-  match r_deltas post with
-  | [] => true   (* the size rule cut even the new delta *)
-  | dn :: _ =>
-      let p := protected_run cf now 0 (r_deltas pre) in
-      let cand := dn :: firstn (N.to_nat p) (r_deltas pre) in
-      N.min (p + 1) (size_loop (size_fun sizes) (objects_size (size_fun sizes) (r_snapshot post)) cand 0 0)
-      <=? N.of_nat (length (r_deltas post))
-  end.
+  let p := protected_run cf now 0 (r_deltas pre) in
+  (* the new delta as the observed pre-state determines it *)
+  let dn := mkD (r_serial pre + 1) now 0 (staged_all (r_st pre)) in
+  let cand := dn :: firstn (N.to_nat p) (r_deltas pre) in
+  N.min (p + 1) (size_loop (size_fun sizes) (objects_size (size_fun sizes) (r_snapshot post)) cand 0 0)
+  <=? N.of_nat (length (r_deltas post)).
 Definition ok_retention (c : case) : bool :=
   match c with
   | KTrans sizes pre OUpdate orc (Some post) strict =>
